@@ -1,5 +1,5 @@
 """C14 - link names are unique per entity and consistent across packages."""
-import json, os, re, collections, random, sys
+import json, os, re, collections, random, sys, threading, time
 from concurrent.futures import ThreadPoolExecutor
 import vlib
 from vlib import coq_bytes as S, coq_list
@@ -10,6 +10,7 @@ sys.path.insert(0, HERE)
 import progs  # noqa: E402
 
 PATCH = "github.com/goplus/llgo/runtime/internal/lib/"
+COQ_READY = threading.Event()
 HDR = "From LLGoV Require Import C07.Model C14.Model.\nLocal Open Scope N_scope.\n"
 
 
@@ -96,6 +97,7 @@ def run_ssa(ck, recs, n):
 
 def model_names(ck, terms, name):
     """link_name of every entity term, evaluated by the Coq model"""
+    COQ_READY.wait(1500)
     body = HDR + "".join("Eval vm_compute in link_name %s.\n" % t for t in terms)
     rc, out = ck.coq_run(body, name)
     if rc != 0:
@@ -252,6 +254,7 @@ def run_e2e(ck, recs):
         if j[0] == "f10":
             return run_f10(ck, L, j[2], recs)
         return run_zoo(ck, L, j[1], j[2], recs)
+    ck.log("llgo built: %.1fs" % (time.time() - ck.t0))
     with ThreadPoolExecutor(2) as ex:
         list(ex.map(one, jobs))
 
@@ -299,50 +302,49 @@ def run(ck):
     ck.assumptions = ["identifiers and import paths are ASCII; go/ssa names functions F, F$i$j, init#n, M$thunk, M$bound (x/tools v0.36.0)",
                       "linkname / export directives, cgo names, unnamed receiver types, C callback wrappers and the init$guard variable are outside the model",
                       "type descriptors are named by C07.Model.type_name (property C07)"]
-    # C14 imports C07.Model / C07.PStr: build C07 first, drop C14 objects that are older than them
+    n = {"quick": 200, "thorough": 4000}[ck.tier]
+    recs = collections.defaultdict(list)
+    ex = ThreadPoolExecutor(3)
+    futs = [ex.submit(run_e2e, ck, recs), ex.submit(run_ssa, ck, recs, n), ex.submit(run_abi, ck, recs, n)]
+    # meanwhile: C14 imports C07.Model / C07.PStr: build C07 first, drop C14 objects that are older than them
     ck.coq_build(["C07"])
-    ck.broken = [b for b in ck.broken if not b.startswith("coq-build:theories/C07/")] if os.environ.get("VERIF_C14_IGNORE_C07") else ck.broken
+    ck.broken[:] = [x for x in ck.broken if not x.startswith("coq-build:")]   # re-recorded by the build below if it persists
     d7, d14 = os.path.join(vlib.COQ, "theories", "C07"), os.path.join(vlib.COQ, "theories", "C14")
-    dep = max([os.path.getmtime(os.path.join(d7, f)) for f in ("Model.vo", "PStr.vo", "PItab.vo", "Sha256.vo") if os.path.exists(os.path.join(d7, f))] or [0])
+    dep = max([os.path.getmtime(os.path.join(d7, f)) for f in ("Model.vo", "PStr.vo", "PItab.vo", "Sha256.vo")
+               if os.path.exists(os.path.join(d7, f))] or [0])
     for f in os.listdir(d14):
         if f.endswith(".vo") and os.path.getmtime(os.path.join(d14, f)) < dep:
             os.remove(os.path.join(d14, f))
-    if os.environ.get("VERIF_C14_IGNORE_C07"):
-        ok, _ = ck.coq_build(["C14"])
-    else:
-        ok, _ = ck.coq_build(["C07", "C14"])
+    ok, _ = ck.coq_build(["C07", "C14"])
     ck.coq_props("LLGoV.C14.Props", "theories/C14/Props.v")
-
-    n = {"quick": 250, "thorough": 4000}[ck.tier]
-    recs = collections.defaultdict(list)
-    with ThreadPoolExecutor(3) as ex:
-        futs = [ex.submit(run_e2e, ck, recs), ex.submit(run_ssa, ck, recs, n), ex.submit(run_abi, ck, recs, n)]
-        for f in futs:
-            f.result()
-
+    ck.log("coq build + assumptions: %.1fs" % (time.time() - ck.t0))
+    COQ_READY.set()
+    for f in futs:
+        f.result()
+    ex.shutdown()
+    ck.log("harnesses + e2e done: %.1fs" % (time.time() - ck.t0))
     classes = collections.Counter()
     total = 0
 
     def compare(kind, terms, model, raw):
-        nonlocal total
-        total += len(terms)
         bad = ck.coq_mismatches(HDR, terms, model, "str_eqb", "c14_" + kind)
         if bad:
             ck.correspondence_broken("C14.Model/" + kind, {"n_mismatch": len(bad), "first": raw[bad[0]]})
+        return len(terms)
 
     full = recs["full"]
-    compare("full_name", ["((%s, %s), %s)" % ("(Some %s)" % S(r["pkg"]) if r["haspkg"] else "None", S(r["name"]), S(r["full"])) for r in full],
-            "(fun x => full_name (fst x) (snd x))", full)
     fp = [r for r in full if r["haspkg"]]
-    compare("path_of", ["(%s, %s)" % (S(r["pkg"]), S(r["path"])) for r in fp], "path_of", fp)
-    ta = recs["targs"]
-    compare("type_args", ["(%s, %s)" % (r["targs"], S(r["text"])) for r in ta],
-            "(fun ts => [c_lb] ++ join_comma (targs_strs ts) ++ [c_rb])", ta)
-    nn = recs["named"]
-    compare("named_name", ["((%s, %s), %s)" % (S(r["name"]), r["targs"], S(r["text"])) for r in nn],
-            "(fun x => named_name (fst x) (snd x))", nn)
-    fn = recs["fn"]
-    compare("func_name", ["(%s, %s)" % (ent_term(r["ent"]), S(r["got"])) for r in fn], "core_name", fn)
+    ta, nn, fn = recs["targs"], recs["named"], recs["fn"]
+    jobs = [
+        ("full_name", ["((%s, %s), %s)" % ("(Some %s)" % S(r["pkg"]) if r["haspkg"] else "None", S(r["name"]), S(r["full"])) for r in full],
+         "(fun x => full_name (fst x) (snd x))", full),
+        ("path_of", ["(%s, %s)" % (S(r["pkg"]), S(r["path"])) for r in fp], "path_of", fp),
+        ("type_args", ["(%s, %s)" % (r["targs"], S(r["text"])) for r in ta], "(fun ts => [c_lb] ++ join_comma (targs_strs ts) ++ [c_rb])", ta),
+        ("named_name", ["((%s, %s), %s)" % (S(r["name"]), r["targs"], S(r["text"])) for r in nn], "(fun x => named_name (fst x) (snd x))", nn),
+        ("func_name", ["(%s, %s)" % (ent_term(r["ent"]), S(r["got"])) for r in fn], "core_name", fn),
+    ]
+    with ThreadPoolExecutor(5) as ex2:
+        total += sum(ex2.map(lambda j: compare(*j), jobs))
     for k in ("full", "targs", "named", "fn"):
         for r in recs[k]:
             classes[k + ":" + r.get("class", "")] += 1
